@@ -525,6 +525,8 @@ def check(prop, tier):
                 h = hashlib.sha1(open(path, "rb").read()).hexdigest()[:12]
                 dst = os.path.join(VERIF, "replays", prop, h + ".case")
                 shutil.copy(path, dst)
+                if os.path.exists(path + ".json"):
+                    shutil.copy(path + ".json", dst + ".json")
                 with open(dst + ".txt", "w") as f:
                     f.write(desc + "\n")
             print("VIOLATION property=%s replay=%s  # %s" % (prop, dst, desc[:300]))
@@ -634,6 +636,28 @@ def triage(binary, prop, st, fl):
     ok = [r for r in results if r["json"] and r["json"]["reportable"] > 0]
     if len(ok) == len(results):
         return ("violation", path, describe(results[0]))
+    if st.get("nondeterministic") and fl["type"] == "falsified":
+        # real threads under the OS scheduler: the failing interleaving need not recur on replay.  A
+        # sanitizer report (data race, use after free) or a wrong result observed once is evidence in
+        # itself - correct code produces it under no schedule - so it is reported with the report text
+        # recorded when it happened; up to 12 further replays try to reproduce it first.
+        for _ in range(12):
+            if ok:
+                break
+            r = run_replay(binary, prop, path, extra=extra, trace=True, timeout=150)
+            if r["json"] and r["json"]["reportable"] > 0:
+                ok.append(r)
+        if ok:
+            return ("violation", path, describe(ok[0]))
+        try:
+            js = json.load(open(path + ".json"))
+            evs = [e for e in js["events"] if not e["known"] and e["prop"] == js["prop"]]
+        except (OSError, ValueError, KeyError):
+            evs = []
+        if evs:
+            e = evs[0]
+            return ("violation", path, "%s :: %s (schedule dependent: seen in the campaign, not in %d isolated replays; report in %s.json)" % (
+                e["sig"], " ".join(e["msg"][:300].split()), len(results) + 12, os.path.basename(path)))
     if any(r["crashed"] for r in results):
         return ("violation", path, [r for r in results if r["crashed"]][0]["sig"])
     if not ok:
